@@ -78,7 +78,17 @@ def run_contracts(prop: str, modules: list[str], timeout_ms: int, jobs: int) -> 
         with ctx.Pool(min(jobs, len(_TASKS))) as pool:
             done = pool.map(_discharge_idx, [(i, timeout_ms) for i in range(len(_TASKS))], chunksize=1)
         from pyvc.verify import OblResult
-        for i, d in sorted(done):
+        done = dict(done)
+        # second chance for `unknown`: the same queries again with three times the budget and few competitors (verdicts of
+        # quantified queries depend on seed and machine load; only `unsat` / `sat` change a verdict, nothing is assumed)
+        again = [i for i, d in done.items() if d.get('status') == 'unknown']
+        if again and len(again) <= 40:
+            with ctx.Pool(min(max(2, jobs // 2), len(again))) as pool:
+                for i, d in pool.map(_discharge_idx, [(i, timeout_ms * 3) for i in again], chunksize=1):
+                    if d.get('status') in ('discharged', 'failed'):
+                        d['backend'] = str(d.get('backend', '')) + '(second pass)'
+                        done[i] = d
+        for i, d in sorted(done.items()):
             fidx = _TASKS[i][0]
             results[fidx][2].obligations.append(OblResult(**d))
     out = []
